@@ -31,7 +31,7 @@ end
 end Induct
 
 section
-variable (W : Nat → Bool) (s : Bool)
+variable (W : Nat → Bool)
 
 /-! ### The list helpers of the mutual blocks are maps -/
 
@@ -50,7 +50,7 @@ theorem candSpecs_eq (cs : List Tmpl) : candSpecs W cs = cs.map (dnaSpec W) := b
   | nil => simp [candSpecs]
   | cons c cs ih => simp only [candSpecs, List.map_cons, ih]; rfl
 
-theorem candV_eq (gs : List GSpec) : candV s gs = gs.map (fun g => (g.isConstSpace, validG s g)) := by
+theorem candV_eq (gs : List GSpec) : candV gs = gs.map (fun g => (g.isConstSpace, validG g)) := by
   induction gs with
   | nil => simp [candV]
   | cons c cs ih => simp only [candV, List.map_cons, ih]
@@ -159,20 +159,20 @@ theorem norm_split (n : Nat) (d : DNA) (ds : List DNA) (hs : splitDna n d = some
 
 /-! ### Validity of a list of decision points -/
 
-theorem validL_nil (ds : List DNA) (h : validL s [] ds = true) : ds = [] := by
+theorem validL_nil (ds : List DNA) (h : validL [] ds = true) : ds = [] := by
   cases ds with
   | nil => rfl
   | cons d ds => simp [validL] at h
 
-theorem validL_single (g : GSpec) (ds : List DNA) (h : validL s [g] ds = true) :
-    ∃ d, ds = [d] ∧ validG s g d = true := by
+theorem validL_single (g : GSpec) (ds : List DNA) (h : validL [g] ds = true) :
+    ∃ d, ds = [d] ∧ validG g d = true := by
   match ds, h with
   | [], h => simp [validL] at h
   | [d], h => simp [validL] at h; exact ⟨d, rfl, h⟩
   | d :: d' :: ds, h => simp [validL] at h
 
-theorem validL_append (a b : List GSpec) (ds : List DNA) (h : validL s (a ++ b) ds = true) :
-    ∃ d1 d2, ds = d1 ++ d2 ∧ validL s a d1 = true ∧ validL s b d2 = true := by
+theorem validL_append (a b : List GSpec) (ds : List DNA) (h : validL (a ++ b) ds = true) :
+    ∃ d1 d2, ds = d1 ++ d2 ∧ validL a d1 = true ∧ validL b d2 = true := by
   induction a generalizing ds with
   | nil => exact ⟨[], ds, rfl, by simp [validL], h⟩
   | cons g gs ih =>
@@ -221,22 +221,22 @@ theorem firstMatch_spec (cands : List Tmpl) (v : Tmpl) (i : Nat) (c : Tmpl) (d0 
 /-- Traversal level: the DNAs of the active placeholders of `t` are consumed exactly, and merging
 the result with the template gives them back. -/
 def StT (t : Tmpl) : Prop :=
-  ∀ ds rest, validL s (specT W t) ds = true →
+  ∀ ds rest, validL (specT W t) ds = true →
     ∃ v, goT W t (ds ++ rest) = .ok (v, rest) ∧
-      (s = true → wfT t = true → DistT W t → nfL ds = true → egoT W t v = .ok ds)
+      (wfT t = true → DistT W t → nfL ds = true → egoT W t v = .ok ds)
 
 def StL (ts : List Tmpl) : Prop :=
-  ∀ ds rest, validL s (specL W ts) ds = true →
+  ∀ ds rest, validL (specL W ts) ds = true →
     ∃ vs, goL W ts (ds ++ rest) = .ok (vs, rest) ∧
-      (s = true → wfL ts = true → DistL W ts → nfL ds = true → egoL W ts vs = .ok ds)
+      (wfL ts = true → DistL W ts → nfL ds = true → egoL W ts vs = .ok ds)
 
 /-- Template level (`ObjectTemplate.decode` / `.encode`). -/
 def StD (c : Tmpl) : Prop :=
-  ∀ d, validG s (dnaSpec W c) d = true →
+  ∀ d, validG (dnaSpec W c) d = true →
     ∃ v, decode W c d = .ok v ∧
-      (s = true → wfT c = true → DistT W c → nfD d = true → encode W c v = .ok d)
+      (wfT c = true → DistT W c → nfD d = true → encode W c v = .ok d)
 
-theorem StD_of_StT (c : Tmpl) (h : StT W s c) : StD W s c := by
+theorem StD_of_StT (c : Tmpl) (h : StT W c) : StD W c := by
   intro d hv
   simp only [dnaSpec, validG] at hv
   split at hv
@@ -246,45 +246,44 @@ theorem StD_of_StT (c : Tmpl) (h : StT W s c) : StD W s c := by
     obtain ⟨v, hgo, henc⟩ := h ds [] hv.2
     simp only [List.append_nil] at hgo
     refine ⟨v, by simp [decode, hsplit, hgo], ?_⟩
-    intro hs hwf hdist hnf
+    intro hwf hdist hnf
     have hcond : (specT W c).length < 2 ∨ d.value = none := by
       have := hv.1
-      subst hs
-      simp only [Bool.not_true, Bool.false_or, Bool.or_eq_true, decide_eq_true_eq, Option.isNone_iff_eq_none] at this
+      simp only [Bool.or_eq_true, decide_eq_true_eq, Option.isNone_iff_eq_none] at this
       exact this
     obtain ⟨hnorm, hnfl⟩ := norm_split _ d ds hsplit hnf hcond
-    simp [encode, henc hs hwf hdist hnfl, hnorm]
+    simp [encode, henc hwf hdist hnfl, hnorm]
 
-theorem StL_of_mem (ts : List Tmpl) (h : ∀ t ∈ ts, StT W s t) : StL W s ts := by
+theorem StL_of_mem (ts : List Tmpl) (h : ∀ t ∈ ts, StT W t) : StL W ts := by
   induction ts with
   | nil =>
     intro ds rest hv
     simp only [specL] at hv
-    have := validL_nil s ds hv
+    have := validL_nil ds hv
     subst this
-    exact ⟨[], by simp [goL], fun _ _ _ _ => by simp [egoL]⟩
+    exact ⟨[], by simp [goL], fun _ _ _ => by simp [egoL]⟩
   | cons t ts ih =>
     intro ds rest hv
     simp only [specL] at hv
-    obtain ⟨d1, d2, rfl, h1, h2⟩ := validL_append s _ _ ds hv
+    obtain ⟨d1, d2, rfl, h1, h2⟩ := validL_append _ _ ds hv
     obtain ⟨v, hgo, henc⟩ := h t (List.mem_cons_self ..) d1 (d2 ++ rest) h1
     obtain ⟨vs, hgoL, hencL⟩ := ih (fun t' ht' => h t' (List.mem_cons_of_mem _ ht')) d2 rest h2
     refine ⟨v :: vs, by simp [goL, List.append_assoc, hgo, hgoL], ?_⟩
-    intro hs hwf hdist hnf
+    intro hwf hdist hnf
     simp only [wfL, Bool.and_eq_true] at hwf
     simp only [DistL] at hdist
     rw [nfL_append] at hnf
-    simp [egoL, henc hs hwf.1 hdist.1 hnf.1, hencL hs hwf.2 hdist.2 hnf.2]
+    simp [egoL, henc hwf.1 hdist.1 hnf.1, hencL hwf.2 hdist.2 hnf.2]
 
 /-- The pairwise clause of `DistT` for one choice. -/
 def CandsDist (cands : List Tmpl) : Prop :=
   ∀ (i j : Nat) ci cj, j < i → cands[i]? = some ci → cands[j]? = some cj →
     ∀ d v, decode W ci d = .ok v → ∀ d', encode W cj v ≠ .ok d'
 
-theorem sub_ok (cands : List Tmpl) (hIH : ∀ c ∈ cands, StD W s c) (chk : Bool) (sd : DNA)
-    (hv : validSub (candV s (candSpecs W cands)) chk sd = true) :
+theorem sub_ok (cands : List Tmpl) (hIH : ∀ c ∈ cands, StD W c) (chk : Bool) (sd : DNA)
+    (hv : validSub (candV (candSpecs W cands)) chk sd = true) :
     ∃ v, decodeSub (candFns W cands) sd = .ok v ∧
-      (s = true → wfL cands = true → DistL W cands → CandsDist W cands → nfD sd = true →
+      (wfL cands = true → DistL W cands → CandsDist W cands → nfD sd = true →
         ∃ i child, firstMatch (encFns W cands) v 0 = some (i, child) ∧
           DNA.norm (some (.idx i)) [child] = sd) := by
   match sd, hv with
@@ -297,10 +296,10 @@ theorem sub_ok (cands : List Tmpl) (hIH : ∀ c ∈ cands, StD W s c) (chk : Boo
       have hmem : c ∈ cands := List.mem_of_getElem? hc
       obtain ⟨v, hdec, henc⟩ := hIH c hmem (DNA.norm none cs) hv.2
       refine ⟨v, by simp [decodeSub, candFns_eq, hc, hdec], ?_⟩
-      intro hs hwf hdist hcd hnf
+      intro hwf hdist hcd hnf
       have hwfc := (wfL_iff cands).mp hwf c hmem
       have hdc := (DistL_iff W cands).mp hdist c hmem
-      have henc' := henc hs hwfc hdc (nfD_reroot _ cs hnf)
+      have henc' := henc hwfc hdc (nfD_reroot _ cs hnf)
       refine ⟨i, DNA.norm none cs, ?_, norm_reroot _ cs hnf⟩
       rw [encFns_eq, firstMatch_spec W cands v i c _ 0 hc henc'
         (fun j cj hj hcj d' => hcd i j c cj hj hc hcj _ v hdec d')]
@@ -308,41 +307,41 @@ theorem sub_ok (cands : List Tmpl) (hIH : ∀ c ∈ cands, StD W s c) (chk : Boo
   | .mk none cs, hv => simp [validSub] at hv
   | .mk (some (.flt x)) cs, hv => simp [validSub] at hv
 
-theorem subs_ok (cands : List Tmpl) (hIH : ∀ c ∈ cands, StD W s c) (sds : List DNA)
-    (hv : sds.all (validSub (candV s (candSpecs W cands)) false) = true) :
+theorem subs_ok (cands : List Tmpl) (hIH : ∀ c ∈ cands, StD W c) (sds : List DNA)
+    (hv : sds.all (validSub (candV (candSpecs W cands)) false) = true) :
     ∃ vs, decodeSubs (candFns W cands) sds = .ok vs ∧ vs.length = sds.length ∧
-      (s = true → wfL cands = true → DistL W cands → CandsDist W cands → nfL sds = true →
+      (wfL cands = true → DistL W cands → CandsDist W cands → nfL sds = true →
         encodeItems (encFns W cands) vs = .ok sds) := by
   induction sds with
-  | nil => exact ⟨[], by simp [decodeSubs], rfl, fun _ _ _ _ _ => by simp [encodeItems]⟩
+  | nil => exact ⟨[], by simp [decodeSubs], rfl, fun _ _ _ => by simp [encodeItems]⟩
   | cons sd sds ih =>
     simp only [List.all_cons, Bool.and_eq_true] at hv
-    obtain ⟨v, hdec, henc⟩ := sub_ok W s cands hIH false sd hv.1
+    obtain ⟨v, hdec, henc⟩ := sub_ok W cands hIH false sd hv.1
     obtain ⟨vs, hdecs, hlen, hencs⟩ := ih hv.2
     refine ⟨v :: vs, by simp [decodeSubs, hdec, hdecs], by simp [hlen], ?_⟩
-    intro hs hwf hdist hcd hnf
+    intro hwf hdist hcd hnf
     simp only [nfL, Bool.and_eq_true] at hnf
-    obtain ⟨i, child, hfm, hnorm⟩ := henc hs hwf hdist hcd hnf.1
-    simp [encodeItems, hfm, hencs hs hwf hdist hcd hnf.2, hnorm]
+    obtain ⟨i, child, hfm, hnorm⟩ := henc hwf hdist hcd hnf.1
+    simp [encodeItems, hfm, hencs hwf hdist hcd hnf.2, hnorm]
 
 
 theorem StT_choice_active (tag : Nat) (one : Bool) (k : Nat) (cands : List Tmpl) (dst so : Bool)
-    (hW : W tag = true) (hIH : ∀ c ∈ cands, StD W s c) : StT W s (.choice tag one k cands dst so) := by
+    (hW : W tag = true) (hIH : ∀ c ∈ cands, StD W c) : StT W (.choice tag one k cands dst so) := by
   intro ds rest hv
   simp only [specT, hW, if_true] at hv
-  obtain ⟨d, rfl, hvd⟩ := validL_single s _ ds hv
+  obtain ⟨d, rfl, hvd⟩ := validL_single _ ds hv
   simp only [validG] at hvd
   by_cases hk : k = 1
   · -- single choice
     subst hk
     simp only [if_true] at hvd
-    obtain ⟨v, hdec, henc⟩ := sub_ok W s cands hIH true d hvd
+    obtain ⟨v, hdec, henc⟩ := sub_ok W cands hIH true d hvd
     refine ⟨if one then v else .node .list [v], by simp [goT, hW, decodeChoice, hdec], ?_⟩
-    intro hs hwf hdist hnf
+    intro hwf hdist hnf
     simp only [wfT, Bool.and_eq_true] at hwf
     simp only [DistT] at hdist
     simp only [nfL, Bool.and_eq_true] at hnf
-    obtain ⟨i, child, hfm, hnorm⟩ := henc hs hwf.2 hdist.1 (hdist.2 hW) hnf.1
+    obtain ⟨i, child, hfm, hnorm⟩ := henc hwf.2 hdist.1 (hdist.2 hW) hnf.1
     have hd : DNA.norm none [d] = d := by
       match d, hvd with
       | .mk (some x) cs, _ => exact norm_none_single_some x cs
@@ -353,14 +352,14 @@ theorem StT_choice_active (tag : Nat) (one : Bool) (k : Nat) (cands : List Tmpl)
   · -- multi choice
     simp only [hk, if_false, Bool.and_eq_true, decide_eq_true_eq] at hvd
     obtain ⟨⟨⟨hstrict, hlen⟩, hidx⟩, hall⟩ := hvd
-    obtain ⟨vs, hdecs, hvlen, hencs⟩ := subs_ok W s cands hIH d.children hall
+    obtain ⟨vs, hdecs, hvlen, hencs⟩ := subs_ok W cands hIH d.children hall
     cases hai : allIdx d.children with
     | none => simp [hai] at hidx
     | some is =>
       simp only [hai] at hidx
       refine ⟨if one then (vs.head?.getD (.const .none)) else .node .list vs, ?_, ?_⟩
       · simp [goT, hW, decodeChoice, hk, hlen, hai, hidx, hdecs]
-      · intro hs hwf hdist hnf
+      · intro hwf hdist hnf
         simp only [wfT, Bool.and_eq_true] at hwf
         simp only [DistT] at hdist
         simp only [nfL, Bool.and_eq_true] at hnf
@@ -375,10 +374,9 @@ theorem StT_choice_active (tag : Nat) (one : Bool) (k : Nat) (cands : List Tmpl)
         | .mk dv cs, hstrict, hlen, hnf, hencs =>
           simp only [DNA.children] at hlen hencs hvlen
           have hdv : dv = none := by
-            subst hs
             simpa [DNA.value] using hstrict
           subst hdv
-          have hcs := hencs hs hwf.2 hdist.1 (hdist.2 hW) (nfD_children hnf.1)
+          have hcs := hencs hwf.2 hdist.1 (hdist.2 hW) (nfD_children hnf.1)
           have hnorm : DNA.norm none cs = .mk none cs := by
             match cs, hlen with
             | [], hlen => simp at hlen; omega
@@ -386,52 +384,52 @@ theorem StT_choice_active (tag : Nat) (one : Bool) (k : Nat) (cands : List Tmpl)
             | c1 :: c2 :: rest, _ => simp [DNA.norm, DNA.splice]
           simp [egoT, hW, encodeChoice, hvlen, hlen, hcs, hnorm]
 
-theorem StT_all (t : Tmpl) : StT W s t := by
+theorem StT_all (t : Tmpl) : StT W t := by
   induction t using Tmpl.ind_t with
   | hconst a =>
     intro ds rest hv
     simp only [specT] at hv
-    have := validL_nil s ds hv
+    have := validL_nil ds hv
     subst this
-    exact ⟨.const a, by simp [goT], fun _ _ _ _ => by simp [egoT, Atom.pyEq_refl]⟩
+    exact ⟨.const a, by simp [goT], fun _ _ _ => by simp [egoT, Atom.pyEq_refl]⟩
   | hnode l kids ih =>
     intro ds rest hv
     simp only [specT] at hv
-    obtain ⟨vs, hgo, henc⟩ := StL_of_mem W s kids ih ds rest hv
+    obtain ⟨vs, hgo, henc⟩ := StL_of_mem W kids ih ds rest hv
     refine ⟨.node l vs, by simp [goT, hgo], ?_⟩
-    intro hs hwf hdist hnf
+    intro hwf hdist hnf
     simp only [wfT] at hwf
     simp only [DistT] at hdist
-    simp [egoT, henc hs hwf hdist hnf]
+    simp [egoT, henc hwf hdist hnf]
   | hchoice tag one k cands dst so ih =>
     by_cases hW : W tag = true
-    · exact StT_choice_active W s tag one k cands dst so hW (fun c hc => StD_of_StT W s c (ih c hc))
+    · exact StT_choice_active W tag one k cands dst so hW (fun c hc => StD_of_StT W c (ih c hc))
     · intro ds rest hv
       simp only [specT, hW, Bool.false_eq_true, if_false] at hv
-      obtain ⟨vs, hgo, henc⟩ := StL_of_mem W s cands ih ds rest hv
+      obtain ⟨vs, hgo, henc⟩ := StL_of_mem W cands ih ds rest hv
       refine ⟨.choice tag one k vs dst so, by simp [goT, hW, hgo], ?_⟩
-      intro hs hwf hdist hnf
+      intro hwf hdist hnf
       simp only [wfT, Bool.and_eq_true] at hwf
       simp only [DistT] at hdist
-      simp [egoT, hW, henc hs hwf.2 hdist.1 hnf]
+      simp [egoT, hW, henc hwf.2 hdist.1 hnf]
   | hfloat tag lo hi =>
     intro ds rest hv
     by_cases hW : W tag = true
     · simp only [specT, hW, if_true] at hv
-      obtain ⟨d, rfl, hvd⟩ := validL_single s _ ds hv
+      obtain ⟨d, rfl, hvd⟩ := validL_single _ ds hv
       simp only [validG] at hvd
       split at hvd
       · rename_i x
         refine ⟨.const (.flt x), by simp [goT, hW, DNA.value, hvd], ?_⟩
-        intro _ _ _ _
+        intro _ _ _
         simp [egoT, hW, hvd]
       · cases hvd
     · simp only [specT, hW, Bool.false_eq_true, if_false] at hv
-      have := validL_nil s ds hv
+      have := validL_nil ds hv
       subst this
-      exact ⟨.floatv tag lo hi, by simp [goT, hW], fun _ _ _ _ => by simp [egoT, hW]⟩
+      exact ⟨.floatv tag lo hi, by simp [goT, hW], fun _ _ _ => by simp [egoT, hW]⟩
 
-theorem StD_all (t : Tmpl) : StD W s t := StD_of_StT W s t (StT_all W s t)
+theorem StD_all (t : Tmpl) : StD W t := StD_of_StT W t (StT_all W t)
 
 
 /-! ### Every successful decode is placeholder-free (modulo filter) and has the template's shape -/
